@@ -37,6 +37,7 @@ type c28cfg struct {
 	managed  bool
 	detect   bool
 	vlogSize int64
+	vlogPct  float64 // VLogPercentile (dynamic value threshold) when > 0
 	banned   []uint64
 	db       *badger.DB
 	maxC     int64
@@ -54,6 +55,9 @@ func (g *c28cfg) open(scratch string) error {
 	}
 	o = o.WithMemTableSize(g.mts).WithValueThreshold(g.thr).WithLoggingLevel(badger.ERROR).
 		WithNamespaceOffset(g.nsOff).WithDetectConflicts(g.detect).WithValueLogFileSize(g.vlogSize)
+	if g.vlogPct > 0 {
+		o = o.WithVLogPercentile(g.vlogPct)
+	}
 	var err error
 	if g.managed {
 		g.db, err = badger.OpenManaged(o)
@@ -386,6 +390,8 @@ type c28script struct {
 	blocked bool
 	// fixed first op (witness replay): key/value lengths
 	fixed *[2]int
+	// between the calls and Commit, let other transactions move the dynamic value threshold
+	moveThr bool
 }
 
 // runs one transaction script; returns false if the case had to be skipped
@@ -568,6 +574,27 @@ func (c *Ctx) c28Txn(g *c28cfg, sc c28script, caseNo int) error {
 			summary = append(summary, "d")
 		}
 	}
+	// the value threshold must not have moved during the calls (one threshold per case)
+	if _, _, thr2 := badger.VerifDBLimits(db); thr2 != thr {
+		c.Count("skipped-threshold-moved")
+		return nil
+	}
+	thrC := thr
+	if sc.moveThr {
+		// dynamic thresholding: other transactions' value sizes raise the threshold
+		for i := 0; i < 5; i++ {
+			err := db.Update(func(t2 *badger.Txn) error { return t2.Set([]byte(fmt.Sprintf("mv%05d-%d", caseNo, i)), make([]byte, 120)) })
+			if err != nil {
+				return fmt.Errorf("C28 threshold mover: %v", err)
+			}
+		}
+		for i := 0; i < 400; i++ {
+			if _, _, thrC = badger.VerifDBLimits(db); thrC != thr {
+				break
+			}
+			time.Sleep(5 * time.Millisecond)
+		}
+	}
 	// commit
 	cts := sc.cts
 	if !g.managed {
@@ -576,7 +603,7 @@ func (c *Ctx) c28Txn(g *c28cfg, sc c28script, caseNo int) error {
 	if sc.blocked {
 		badger.VerifBlockWrites(db, true)
 	}
-	if g.inMem && int64(len(strconv.FormatUint(cts, 10))) >= thr {
+	if g.inMem && int64(len(strconv.FormatUint(cts, 10))) >= thrC {
 		riskCrash = true
 	}
 	var ccode uint64
@@ -606,8 +633,7 @@ func (c *Ctx) c28Txn(g *c28cfg, sc c28script, caseNo int) error {
 	if sc.blocked {
 		badger.VerifBlockWrites(db, false)
 	}
-	_, _, thr2 := badger.VerifDBLimits(db)
-	if thr2 != thr {
+	if _, _, thr3 := badger.VerifDBLimits(db); thr3 != thrC {
 		c.Count("skipped-threshold-moved")
 		return nil
 	}
@@ -615,15 +641,21 @@ func (c *Ctx) c28Txn(g *c28cfg, sc c28script, caseNo int) error {
 	if sc.fixed != nil {
 		kind = "TxnWitness-" + g.name
 	}
-	c.Case(kind, fmt.Sprintf("(TxnCase %s %s %s %s %d %s %d)", g.dbTerm(), Zz(thr), Bool(sc.update), ListOf(ops), cts, Bool(sc.blocked), ccode),
+	c.Case(kind, fmt.Sprintf("(TxnCase %s %s %s %s %d %s %s %d)", g.dbTerm(), Zz(thr), Bool(sc.update), ListOf(ops), cts, Bool(sc.blocked), Zz(thrC), ccode),
 		J{"cfg": g.name, "upd": sc.update, "ops": summary, "cts": cts, "blocked": sc.blocked})
-	rep := J{"cfg": g.name, "memtable": g.mts, "threshold": thr, "ops": summary, "commit_ts": cts, "commit_code": ccode, "all_writes_accepted": allAccepted}
+	rep := J{"cfg": g.name, "memtable": g.mts, "threshold": thr, "threshold_at_commit": thrC, "ops": summary, "commit_ts": cts, "commit_code": ccode, "all_writes_accepted": allAccepted}
 	if nWrites > 0 {
 		what := "Commit failed with ErrTxnTooBig although every write of the transaction was accepted (end marker under-reserved)"
 		if !allAccepted {
 			what = "Commit failed with ErrTxnTooBig for the accepted writes of a transaction (end marker under-reserved)"
 		}
-		c.Oracle(ccode != 9, "F4-commit-errtxntoobig-after-all-writes-accepted", what, rep)
+		if thr == 0 && thrC != 0 {
+			// root cause: entries cached threshold 0 and were re-estimated at Commit
+			c.Oracle(ccode != 9, "F18-commit-errtxntoobig-zero-threshold-reestimated",
+				"Commit failed with ErrTxnTooBig for accepted writes: with ValueThreshold 0 an entry's cached threshold (0) counts as unset, so sendToWriteCh re-estimates it with the dynamically raised threshold", rep)
+		} else {
+			c.Oracle(ccode != 9, "F4-commit-errtxntoobig-after-all-writes-accepted", what, rep)
+		}
 	}
 	c.Oracle(ccode != 30, "F17-inmemory-value-at-threshold-accepted-then-writer-panics",
 		"an accepted write (InMemory, len(value) >= threshold, or marker digits >= threshold) makes the writer goroutine panic in writeToLSM at Commit: the process dies", rep)
@@ -656,7 +688,10 @@ func runC28(c *Ctx) error {
 			banned: []uint64{7, 0, math.MaxUint64, 0x6162636465666768}},
 		{name: "bigVlog1M", mts: 64 << 20, thr: 1 << 10, nsOff: -1, managed: true, detect: true, vlogSize: 1 << 20},
 		{name: "thr0", mts: 6400, thr: 0, nsOff: -1, managed: true, detect: true, vlogSize: 1 << 21},
+		// used by the F18 witness only (the threshold moves): ValueThreshold 0 + dynamic thresholding
+		{name: "dynThr0", mts: 1920, thr: 0, nsOff: -1, managed: false, detect: true, vlogSize: 1 << 21, vlogPct: 0.9},
 	}
+	nPool := len(cfgs) - 1
 	for _, g := range cfgs {
 		if err := g.open(scratch); err != nil {
 			return err
@@ -694,11 +729,19 @@ func runC28(c *Ctx) error {
 	}
 	caseNo++
 
+	// F18: ValueThreshold 0 with dynamic thresholding: Set(190-byte key, 80-byte value) is accepted at
+	// threshold 0 (21+204+10 = 235); other commits raise the threshold to ~120; Commit re-estimates the
+	// entry as 190+8+80+2 = 280, plus 22 for the marker: 302 >= 288
+	if err := c.c28Txn(cfgs[9], c28script{cfg: cfgs[9], update: true, nOps: 1, fixed: &[2]int{190, 80}, moveThr: true}, caseNo); err != nil {
+		return err
+	}
+	caseNo++
+
 	ctsEdges := []uint64{1, 2, 9, 10, 99, 100, 101, 999, 1000, 99999, 1e9, 1e18, 9999999999999999999, 1e19, math.MaxUint64, 0}
 	for i := 0; c.nCases < c.N; i++ {
 		switch i % 10 {
 		case 0, 1, 2, 3, 4, 5:
-			g := cfgs[c.Rng.Intn(len(cfgs))]
+			g := cfgs[c.Rng.Intn(nPool)]
 			if g.name == "bigVlog1M" && c.Rng.Intn(3) != 0 {
 				g = cfgs[c.Rng.Intn(4)]
 			}
